@@ -74,17 +74,21 @@ def one(rng):
         if k < 7:
             n, v = pick_header(rng)
             hs2 = (n, v)
-            ops.append("H%s:%s" % (hx(n), hx(v)))
+            ops.append("%s%s:%s" % ("A" if rng.chance(1, 3) else "H", hx(n), hx(v)))
             hs.append(hs2)
         elif k == 7:
             st = rng.choice([200, 201, 404, 503])
             ops.append("S%d" % st)
         elif k == 8:
             ops.append("T%d" % rng.choice([0, 1, 5, 32768]))
+            if rng.chance(1, 2):
+                ops.append("B")          # boxed() after the threshold was set
         else:
             d = b"y" * rng.choice([0, 3, 10])
             l = rng.choice(["-", str(len(d)), str(len(d))])
             ops.append("D%s:%s" % (hx(d), l))
+    if rng.chance(1, 6):
+        ops.insert(rng.below(len(ops) + 1), "B")
     for n, v in hs:
         ln_ = n.lower()
         if ln_ in ("connection", "trailer", "transfer-encoding", "upgrade", "content-length", "content-type", "date", "server"):
@@ -94,7 +98,7 @@ def one(rng):
     head = 1 if mismatch else rng.below(2)
     up = hx("websocket") if rng.chance(1, 8) else "~"
     ver = rng.choice(["1.0", "1.1"])
-    ctor_hs = hdrs([h for h in hs[:len(hs) - sum(1 for o in ops if o[0] == "H")]]) if ctor == "new" else "-"
+    ctor_hs = hdrs([h for h in hs[:len(hs) - sum(1 for o in ops if o[0] in "HA")]]) if ctor == "new" else "-"
     line = "rp %s %d %s %s %s %s %s - %d %s %s" % (ctor, st, ctor_hs, hx(body), ln, ";".join(ops) if ops else "-", ver, head, up,
                                                   rng.choice(["-", "1", "7,3"]))
     return line, {"ctor": ctor, "n_headers": min(len(hs), 12), "special": special, "upgrade": up != "~", "head": head}
